@@ -74,6 +74,10 @@ def run(ctx, only=None):
             kind = "lost" if len(evs) < len(want) else "invented or duplicated" if len(evs) > len(want) else "reordered or altered"
             fails.append(Failure(s.model_case(), f"the server reported {names} (in its idle replies, in this order); the event stream delivered {dec(evs)} ({kind})",
                                  extra={"impl_case": r["impl_case"], "names": names}))
+    nties = 0
+    if only is None:
+        tf, nties = L.run_ties(ctx, 25, 500)
+        fails += tf
     if only is not None:
         for r in results:
             print("labels:", " ".join(r["sched"].labels)[:1500], "\nops   :", " ".join(r["ops"])[:1500], "\nimpl  :", r["impl_raw"][:2500], "\nmodel :", " ".join(r["model_segs"])[:2500])
@@ -81,7 +85,7 @@ def run(ctx, only=None):
             "requests": sum(sum(1 for l in s.labels if l[0] in "ic") for s in scheds),
             "partial_deliveries": sum(sum(1 for l in s.labels if l[0] == "D" and l != "D0") for s in scheds)}
     return finish(
-        ctx, evaluations=len(scheds), distinct_nontrivial=nontrivial,
+        ctx, evaluations=len(scheds) + nties, distinct_nontrivial=nontrivial,
         rule="random schedules mixing subsystem changes (known names, unknown names, case variants, repeats; several pending at once so that one reply "
              "carries several changed lines), requests issued at every stage of an idle reply's delivery (replies cut after 1,2,5,9,17,18,19.. bytes), "
              "server steps and clock advances, then a flush; oracle: the names delivered by ConnectionEvents::next equal, in order, the names the "
@@ -91,6 +95,8 @@ def run(ctx, only=None):
 
 
 def replay(ctx, payload):
+    if payload.get("extra", {}).get("tie"):
+        return L.replay_tie(ctx, payload)
     items = []
     names = payload.get("extra", {}).get("names")
     for c in payload.get("cases", []):
